@@ -329,6 +329,33 @@ def run(params):
                     if g != "reject":
                         record("a single fault is not rejected with the message error", cls, dname, mtype, mut, g)
                     verdicts.append((mut, g))
+                # the same message as it comes off the wire: standard header in front, CheckSum behind; the faults sit
+                # behind the CheckSum (a tag added to a decoded message) or in the header (a header field given as group)
+                mt_enum = d.fields.get("MsgType", {}).get("enum") or []
+                if k == 0 and (not mt_enum or mtype in mt_enum):
+                    # (a message type the dictionary's own MsgType enumeration lacks - TT QuoteRequestResponse 'b' - cannot
+                    # carry a valid header: the dictionary contradicts itself there, not the library)
+                    hdr = [("8", "FIX.4.4"), ("9", "100"), ("35", mtype), ("49", "SENDER"), ("56", "TARGET"), ("34", "7"),
+                           ("52", "20230919-07:13:26.808")]
+                    framed = hdr + inst + [("10", "123")]
+                    n += 1
+                    g = verdict(schema, mtype, framed)
+                    if not g.startswith("unbuildable"):
+                        if g != "accept":
+                            record("a framed message built according to the dictionary does not validate", "valid", dname, mtype, framed, g)
+                        allowed = {m_["tag"] for m_ in members}
+                        foreign = [f["tag"] for f in d.fields.values() if f["tag"] not in allowed and f["tag"] not in d.header
+                                   and f["tag"] not in HEADER_SKIP and not f["enum"] and f["type"] == "STRING"]
+                        late = [("unknown tag behind CheckSum", framed + [("99999", "x")])]
+                        if foreign:
+                            late.append(("tag not allowed in this message behind CheckSum", framed + [(rnd.choice(foreign), "x")]))
+                        hi = rnd.randrange(2, len(hdr))
+                        late.append(("header field given as group", hdr[:hi] + [(hdr[hi][0], ("as_group", "1"))] + hdr[hi + 1:] + inst + [("10", "123")]))
+                        for cls, mut in late:
+                            n += 1
+                            g = verdict(schema, mtype, mut)
+                            if not g.startswith("unbuildable") and g != "reject":
+                                record("a single fault is not rejected with the message error", cls, dname, mtype, mut, g)
                 for ps in perm:
                     for m, g in verdicts[:6]:
                         n += 1
